@@ -544,6 +544,32 @@ def run(ctx: Ctx):
                 f"{short}::main touches the output file (`{norm(first_w)[:60]}`) before generation has finished: a model that fails to load or generate leaves an (empty / truncated) output file behind",
                 main.where(first_w),
             )
+        # every way through main that does not raise reaches the write: a run that returns without writing exits 0 and
+        # leaves whatever an earlier run produced (other options, another model) under the requested name
+        from sa import te as _te
+
+        skipping = []
+        try:
+            paths = _te.enumerate_paths(main.node.body)
+        except Exception:
+            paths = None
+        if paths is None:
+            ctx.undecided("R18.b", main.key("always-writes"), "the paths of main could not be enumerated", main.where())
+        else:
+            write_nodes = {id(order[i]) for i in writes}
+            for p_ in paths:
+                if p_.exit == "raise":
+                    continue
+                if not any(id(c) in write_nodes for st in p_.effects for c in ast.walk(st)):
+                    skipping.append(p_)
+            ctx.check(
+                not skipping,
+                "R18.b",
+                main.key("always-writes"),
+                f"all {len(paths)} non-raising paths write the output",
+                f"{short}::main can finish without writing the output file (path [{skipping[0].pred()[:120]}]): the command exits 0 and the file of that name - if any - still holds what an earlier run produced, so none of the options of this run is honoured" if skipping else "",
+                main.where(),
+            )
         trys = [n for n in ast.walk(main.node) if isinstance(n, ast.Try)]
         ctx.check(not trys, "R18.b", main.key("no-handler"), "no exception handler around load/generate/write", f"{short}::main wraps its work in try/except: a failing model may no longer exit non-zero", main.where())
         if gen_name == "get_code":
@@ -578,6 +604,7 @@ def run(ctx: Ctx):
         "read_config no longer reads the file named by an explicit --config path (falling back to the discovered pyproject.toml only when none is given) and returns its [tool.gotranx] table",
     )
     check_config_discovery(ctx, "R18.c")
+    check_discovery_only_without_path(ctx, "R18.c")
     for k_ in ("explicit-path-wins", "reads-path"):
         (ctx.ok if vd == "ok" else (lambda *a, **kw: None))("R18.c", rc.key(k_), "see ::table (the whole function equals the vetted value)", rc.where())
 
@@ -690,6 +717,50 @@ def check_get_code_forwards(ctx: Ctx, rule: str, option: str):
             ctx.undecided(rule, key, f"{short}::get_code: no call of add_schemes is found in what it computes", g.where())
             continue
         ctx.check(option in passed and _mentions_param(passed[option], option), rule, key, f"get_code forwards {option}", f"{short}::get_code does not forward {option} to add_schemes", g.where())
+
+
+def check_discovery_only_without_path(ctx: Ctx, rule: str):
+    """An explicit --config file *replaces* the discovered pyproject.toml (docs/config.md).  Whatever locates the project's
+    own file - find_pyproject_toml_config() or read_config calling itself with None - may therefore only run where the
+    path parameter is known to be None; anywhere else keys of a file nobody named leak into an explicitly configured run."""
+    rc = ctx.sm.func("cli/utils.py", "read_config", required=False)
+    if rc is None or not rc.params:
+        return
+    par = rc.params[0]
+    parents = {ch: pa for pa in ast.walk(rc.node) for ch in ast.iter_child_nodes(pa)}
+
+    def under_none_test(node) -> bool:
+        cur = node
+        while cur in parents:
+            pa = parents[cur]
+            if isinstance(pa, (ast.If, ast.IfExp)):
+                t = norm(pa.test)
+                body = pa.body if isinstance(pa.body, list) else [pa.body]
+                orelse = pa.orelse if isinstance(pa.orelse, list) else [pa.orelse]
+                in_body = any(cur is b or cur in list(ast.walk(b)) for b in body)
+                in_else = any(cur is b or cur in list(ast.walk(b)) for b in orelse)
+                if (t in (f"{par} is None", f"not {par}", f"{par} == None") and in_body) or (t in (f"{par} is not None", f"{par}", f"{par} != None") and in_else):
+                    return True
+            if isinstance(pa, ast.BoolOp) and isinstance(pa.op, ast.Or) and cur in pa.values and any(norm(v_) == par for v_ in pa.values[: pa.values.index(cur)]):
+                return True  # `path or find...()`
+            # an earlier statement of the same block returns / raises whenever a path was given
+            for fld in ("body", "orelse", "finalbody"):
+                blk = getattr(pa, fld, None)
+                if isinstance(blk, list) and cur in blk:
+                    for st in blk[: blk.index(cur)]:
+                        if isinstance(st, ast.If) and norm(st.test) in (f"{par} is not None", f"{par}", f"{par} != None") and st.body and isinstance(st.body[-1], (ast.Return, ast.Raise)):
+                            return True
+            cur = pa
+        return False
+
+    sites = []
+    for c in walk_no_nested(rc.node):
+        if isinstance(c, ast.Call):
+            tail = (dotted(c.func) or "").split(".")[-1]
+            if tail in ("find_pyproject_toml_config", "find_pyproject_toml", "find_project_root") or (tail == rc.name and c.args and isinstance(c.args[0], ast.Constant) and c.args[0].value is None):
+                sites.append(c)
+    for c in sites:
+        ctx.check(under_none_test(c), rule, rc.key(f"discovery-only-without-path::{norm(c)[:40]}"), "the project's own file is looked for only when no path was given", f"read_config evaluates `{norm(c)[:60]}` also when an explicit path was given: keys of the discovered pyproject.toml (scheme, stiff_states, delta ...) leak into a run that was told to use another configuration file", rc.where(c))
 
 
 def check_config_discovery(ctx: Ctx, rule: str):
